@@ -96,6 +96,7 @@ def run(module, cfg, workers=16, dump=False, env=None, timeout=3600, extra=(),
     # Page faults are very expensive in this sandbox (about 7 s of system time
     # per GB touched): small fixed heaps and few GC threads are several times
     # faster than the JVM defaults (14 GB heap, 16 GC threads).
+    workers = max(1, min(workers, int(os.environ.get("VERIF_MAX_WORKERS", workers))))
     heap_mb = int(heap) if heap else (3072 if workers > 1 else 2048)
     cmd = ["java", "-XX:+UseParallelGC", f"-XX:ParallelGCThreads={4 if workers > 1 else 2}",
            f"-Xmx{heap_mb}m", f"-Xmn{heap_mb // 2}m"]
